@@ -96,6 +96,25 @@ constexpr int combo_index() {
 
 struct defined_base {};
 
+// how a combination is marked: "derives from not_defined" in several ways
+#ifndef MARKSTYLE
+#define MARKSTYLE 0
+#endif
+struct mark_indirect : not_defined {};
+struct mark_left : not_defined {};
+struct mark_right : not_defined {};
+struct mark_twice : mark_left, mark_right {}; // two not_defined sub-objects
+class mark_private : not_defined {};           // private base
+#if MARKSTYLE == 0
+using undefined_mark = not_defined;
+#elif MARKSTYLE == 1
+using undefined_mark = mark_indirect;
+#elif MARKSTYLE == 2
+using undefined_mark = mark_twice;
+#else
+using undefined_mark = mark_private;
+#endif
+
 template<class Seq>
 struct sig;
 template<std::size_t... I>
@@ -113,7 +132,7 @@ struct Case {
 #if HASMETHOD
     template<class... T>
     struct definition
-        : std::conditional_t<Mask::test(combo_index<T...>()), not_defined, defined_base> {
+        : std::conditional_t<Mask::test(combo_index<T...>()), undefined_mark, defined_base> {
         using method = M;
         static int fn(T&...) {
             return combo_index<T...>();
@@ -133,7 +152,7 @@ struct Case {
 #else
     template<class Method, class... T>
     struct definition
-        : std::conditional_t<Mask::test(combo_index<T...>()), not_defined, defined_base> {
+        : std::conditional_t<Mask::test(combo_index<T...>()), undefined_mark, defined_base> {
         static int fn(T&...) {
             return combo_index<T...>();
         }
@@ -235,6 +254,7 @@ void run_case(const std::string& mask_text) {
         ++g_nontrivial;
     std::string name = "L=" + std::to_string(UD_L1) + "x" + std::to_string(UD_L2) + "x" +
         std::to_string(UD_L3) + " method_member=" + std::to_string(HASMETHOD) +
+        " mark_style=" + std::to_string(MARKSTYLE) +
         " not_defined=" + mask_text;
     if (registered != expected || others != 1) {
         std::string got, want;
